@@ -3,10 +3,20 @@
    Model: Model/Ty.v (tord = typeorder with fuel; [Some r] = answered).  Domain predicate: Model/TyDom.v (msym). *)
 From Coq Require Import ZArith List Bool Arith.
 Import ListNotations.
-From OvldV Require Import Model.Order Model.Ty Model.TyDom Model.Codec Proofs.TyEq Proofs.TyMono Proofs.TyOrder.
+From OvldV Require Import Model.Order Model.Ty Model.TyDom Model.Codec Proofs.TyEq Proofs.TyMono Proofs.TyOrder Gen.Leaf Proofs.LeafAgree.
 
 Definition Antisym (sub : nat -> nat -> bool) := forall c d, sub c d = true -> sub d c = true -> c = d.
 Definition Trans (sub : nat -> nat -> bool) := forall a b c, sub a b = true -> sub b c = true -> sub a c = true.
+
+(* second tie to the source: Order.opposite and Order.merge as regenerated from /repo's current text (Gen/Leaf.v) are the
+   functions the model uses *)
+Theorem C12_leaf_opposite : forall o, opposite_src o = opposite o.
+Proof. exact opposite_agree. Qed.
+Print Assumptions C12_leaf_opposite.
+
+Theorem C12_leaf_merge : forall l, merge_src l = merge l.
+Proof. exact merge_agree. Qed.
+Print Assumptions C12_leaf_merge.
 
 (* every type is the same as itself *)
 Theorem C12_refl : forall sub hasm chk fresh n t, tord sub hasm chk fresh (S n) t t = Some SAME.
